@@ -208,7 +208,7 @@ class TTMatrix:
 
         :return: bool
         """
-        return max(self.ranks) == 1
+        return len(self.ranks) == 0 or max(self.ranks) == 1
 
     def _check_kron_properties(self):
         """
